@@ -108,9 +108,28 @@ def c01() -> int:
             if first_divergence(run, baseline[run["scenario"]]) is not None:
                 raise RuntimeError(f"harness: the same hash seed gave two different runs of {run['scenario']} (uncontrolled nondeterminism)")
         counters = {run["scenario"]: run["counters"] or {} for run in b0["runs"]}
+        # repetition inside ONE interpreter: every generated scenario twice in a row, and once more after the others --
+        # all three must equal the run in a fresh process (state that survives in module-level objects between runs)
+        rep = run_worker(base, small + list(reversed(small)) + small[:1], outdir, False)
+        if "error" in rep:
+            raise RuntimeError("ORD worker failed: " + rep["error"])
+        repetitions = 0
+        for k, run in enumerate(rep["runs"]):
+            repetitions += 1
+            dv = first_divergence(baseline[run["scenario"]], run)
+            if dv is not None:
+                c.add(
+                    Finding(
+                        "C01",
+                        ("repetition_in_process", dv[1]),
+                        f"scenario {run['scenario']} run as #{k+1} of a sequence of runs inside one interpreter differs from its run in a fresh process at step {dv[0]} ({dv[1]}): something survives between runs",
+                        {"engine": "ord", "scenario": run["scenario"], "seeds": [base, base], "step": dv[0], "repetition": small + list(reversed(small)) + small[:1]},
+                    )
+                )
+                break
         need = {
             "S1": ["multi_fleet_vehicle_dispatched", "two_vehicles_reach_same_target_same_step"],
-            "S2": ["plug_ranking_tied", "station_search_tied", "two_vehicles_reach_same_target_same_step", "competing_instructions_same_target_same_step"],
+            "S2": ["plug_ranking_tied", "station_search_tied", "two_vehicles_reach_same_target_same_step", "competing_instructions_same_target_same_step", "plug_granted_among_tied_queuers"],
             "S3": ["competing_instructions_same_target_same_step"],
             "S2t": ["two_vehicles_reach_same_target_same_step", "queued_vehicles_share_enqueue_time"],
         }
@@ -196,6 +215,7 @@ def c01() -> int:
                 "rule": "one evaluation = one scenario run in a fresh interpreter under one hash seed (consecutive from 4096*VERIF_SEED); distinct non-trivial = distinct realised iteration orders over all declared collections; stop when every permutation of every declared collection of size <= 4 was realised, else at the cap",
                 "scenarios": cov_rows,
                 "seed_block": [base, nxt - 1],
+                "in_process_repetitions": repetitions,
                 "cap": cap,
                 "samples": [{"scenario": sc, "hash_seed": base, "order_signature": baseline[sc]["signature"]} for sc in small[:2]],
             }
@@ -217,6 +237,17 @@ def replay(body) -> int:
     rp = body["replay"]
     outdir = scratch_dir("hivemc_ord_")
     try:
+        if rp.get("repetition"):
+            fresh = {sc: run_worker(rp["seeds"][0], [sc], outdir)["runs"][0] for sc in sorted(set(rp["repetition"]))}
+            seq = run_worker(rp["seeds"][0], rp["repetition"], outdir)
+            for k, run in enumerate(seq["runs"]):
+                dv = first_divergence(fresh[run["scenario"]], run)
+                if dv is not None:
+                    print(f"run #{k+1} ({run['scenario']}) of the in-process sequence {rp['repetition']} differs from a fresh process at step {dv[0]} ({dv[1]})")
+                    print(f"VIOLATION property=C01 replay={body.get('_path')}")
+                    return 1
+            print("in-process repetitions equal fresh-process runs: not reproduced on this tree")
+            return 0
         a = run_worker(rp["seeds"][0], [rp["scenario"]], outdir)
         b = run_worker(rp["seeds"][1], [rp["scenario"]], outdir)
         dv = first_divergence(a["runs"][0], b["runs"][0])
